@@ -87,6 +87,9 @@ func worldPkgs(w *world.World) []string {
 	if w.HasQ {
 		ps = append(ps, "./q")
 	}
+	if w.Twin > 0 {
+		ps = append(ps, "./twin/p")
+	}
 	return ps
 }
 
@@ -102,6 +105,7 @@ func userSources(files map[string]string) map[string]string {
 
 func c01Case(ctx *genCtx, ts *tape.Set, dir string) *genResult {
 	prof := drawProfile(ts.Fork("profile"), ctx.tier)
+	prof.Twin = ts.Fork("twin").Chance(1, 6)
 	w := world.Generate(ts.Fork("world"), prof)
 	plan := drawPlan(ts.Fork("plan"))
 	gmp := []int{0, 1, 4, 16}[ts.Fork("plan").Intn(4)]
@@ -121,6 +125,9 @@ func c01Case(ctx *genCtx, ts *tape.Set, dir string) *genResult {
 	}
 	if w.HasQ {
 		res.probe("world.two_packages")
+	}
+	if w.Twin > 0 {
+		res.probe("world.same_named_generated_packages")
 	}
 	if r.NotGofmt {
 		res.probe("output_not_gofmt_clean")
